@@ -2,6 +2,7 @@
 #ifndef SRC_cocls_ITERATOR_H_
 #define SRC_cocls_ITERATOR_H_
 #include <iterator>
+#include <type_traits>
 
 
 namespace cocls {
@@ -58,9 +59,17 @@ public:
     };
 
     storage operator++(int) {
-        storage z{std::move(_gen->value())};
-        _next = _gen->next();
-        return z;
+        //the current item is an object of the generator's body (it can be its variable)
+        //so it is copied; it is moved out only if it cannot be copied
+        if constexpr (std::is_copy_constructible_v<value_type>) {
+            storage z{_gen->value()};
+            _next = _gen->next();
+            return z;
+        } else {
+            storage z{std::move(_gen->value())};
+            _next = _gen->next();
+            return z;
+        }
     }
 
     
